@@ -171,9 +171,28 @@ func (a *AttWatcher) OracleC02(br *world.BlockResult) []*core.Violation {
 		sort.Slice(nl, func(i, j int) bool { return nl[i].Nonce < nl[j].Nonce })
 		for _, at := range nl {
 			if at.Nonce != a.Last[chain]+1 {
-				out = append(out, vio("C02", "nonce-order", h, nil, fmt.Sprintf("claim at nonce %d took effect on %s while the last observed nonce of this epoch is %d", at.Nonce, chain, a.Last[chain])))
+				// what the store holds for the skipped nonce(s)
+				var skipped []string
+				for _, k := range keys {
+					c := a.Cur[k]
+					if c.Chain == chain && c.Nonce+1 > a.Last[chain] && c.Nonce < at.Nonce+2 {
+						was := "absent before"
+						if p := a.Prev[k]; p != nil {
+							was = fmt.Sprintf("before: observed=%v votes=%d", p.Observed, len(p.Votes))
+						}
+						skipped = append(skipped, fmt.Sprintf("nonce %d %T observed=%v votes=%d (%s)", c.Nonce, c.Claim, c.Observed, len(c.Votes), was))
+					}
+				}
+				cursor, _ := w.N.App.SkywayKeeper.GetLastObservedSkywayNonce(ctx, chain)
+				out = append(out, vio("C02", "nonce-order", h, nil, fmt.Sprintf("claim at nonce %d took effect on %s while the last observed nonce of this epoch is %d; chain cursor now %d; attestations in between: %v", at.Nonce, chain, a.Last[chain], cursor, skipped)))
 			}
 			a.Last[chain] = at.Nonce
+		}
+		// the chain's own cursor must be where the observed claims put it: a cursor that moved on without a claim
+		// being marked observed has consumed an event nonce whose effect was never applied
+		if cursor, err := w.N.App.SkywayKeeper.GetLastObservedSkywayNonce(ctx, chain); err == nil && cursor != a.Last[chain] && len(out) == 0 {
+			out = append(out, vio("C02", "cursor-moved-without-observation", h, nil, fmt.Sprintf("the oracle cursor of %s is %d but the last claim that took effect in this epoch has nonce %d: an event nonce was consumed without its claim being observed or applied", chain, cursor, a.Last[chain])))
+			a.Last[chain] = cursor
 		}
 	}
 	return out
